@@ -272,6 +272,13 @@ StatementBinding ==
   (obs.vres = "ok" /\ wire = sent /\ sent # NoProof /\ ~degen)
      => (Shared(tr.P) = Shared(tr.V) /\ VStatementHolds /\ BasesAgree)
 
+\* C04 (ideal form): an altered proof object is never accepted (on a toy curve up to luck: the driver re-runs a flagged case)
+IdealIntegrity == (obs.vres = "ok" /\ ~degen /\ sent # NoProof) => wire = sent
+\* C08 (ideal form): whatever is accepted has the shape the statement calls for and no identity among its mandatory points
+IdealShape ==
+  (obs.vres = "ok" /\ ~degen /\ wire # NoProof)
+     => (ShapeOk(Pad2(VLen(cs.V)), Len(wire.L), Len(wire.R)) /\ MandatoryNonIdentity(wire))
+
 \* properties of System evaluated in every state of every recorded run
 TraceInv == PendingClosed /\ RoleSync /\ Completeness
 =============================================================================
